@@ -44,7 +44,51 @@ class C15(PropertyCheck):
             'representation (slice of slice, chain, range, map, zip) or an out-of-range request')
 
     def generate(self, rng, tier):
-        return []
+        # arrangements and selections of a sequence, against itertools (python second opinion, no Coq model): the MULTISET of rows
+        # and their number, for k from 0 to beyond the length (more distinct elements than there are: no row, not an error)
+        import itertools
+        from lib.runner import Case
+        cases = []
+        for _ in range(30 if tier == 'quick' else 300):
+            n = rng.choice([0, 1, 2, 3, 4])
+            a = rng.sample(range(1, 9), n)
+            k = rng.choice([0, 1, 2, n, n + 1, n + 2, rng.randint(0, 4)])
+            src = ('[' + ', '.join(map(str, a)) + ']') if a else 'range(0).to_array()'
+            if rng.random() < 0.3:
+                src = f'({src}).map((x: int)->{{x}})'          # a lazy representation of the same list
+            fam = rng.choice(['permutations', 'combinations', 'combinations_with_replacement', 'permutations_all'])
+            if fam == 'permutations':
+                rows = list(itertools.permutations(a, k))
+                call = f'({src}).permutations({k})'
+            elif fam == 'combinations':
+                rows = list(itertools.combinations(a, k))
+                call = f'({src}).combinations({k})'
+            elif fam == 'combinations_with_replacement':
+                rows = list(itertools.combinations_with_replacement(a, k))
+                call = f'({src}).combinations_with_replacement({k})'
+            else:
+                rows = list(itertools.permutations(a))
+                call = f'({src}).permutations()'
+            want = str(len(rows)) + '|' + str(sorted(list(r) for r in rows)).replace(' ', '')
+            body = f'to_str(({call}).len()) + "|" + to_str(({call}).map((r: Sequence<int>)->{{r.to_array()}}).to_array().sort()).replace(" ", "")'
+            meta = {'error_ok': (fam in ('permutations', 'combinations') and k > n) or (fam == 'combinations_with_replacement' and n == 0 and k > 0)}
+            cases.append(Case(f'{fam}|{call}', fam, body, None, 'str', '', meta, None, want))
+        # index spaces beyond a machine word (defect repaired in /repo: overflow crash): the i-th selection for small i is known in closed form
+        for n, i, k in [(100, 0, 50), (70, 5, 35), (68, 3, 34), (66, 3, 33), (90, 1, 45)]:
+            want = str(list(range(k - 1)) + [k - 1 + i])
+            cases.append(Case(f'combination-large|{n},{i},{k}', 'combination-large', f'to_str(combination({n}, {i}, {k}))', None, 'str', '', None, None, want))
+            if n <= 66:
+                cases.append(Case(f'combinations-large|{n},{i},{k}', 'combination-large', f'to_str(range({n}).combinations({k})[{i}])', None, 'str', '', None, None, want))
+        cases.append(Case('permutation-large|25,3', 'combination-large', 'to_str(permutation(25, 3))', None, 'str', '', None, None, str(list(range(22)) + [23, 24, 22])))
+        cases.append(Case('cwr-large|40,0,40', 'combination-large', 'to_str(combination_with_replacement(40, 0, 40))', None, 'str', '', None, None, str([0] * 40)))
+        cases.append(Case('combination-huge|300,0,150', 'combination-large', 'to_str(is_error(combination(300, 0, 150)) || combination(300, 0, 150) == range(150).to_array())', None, 'str', '', None, None, 'true'))
+        return cases
+
+    def agree(self, case, impl, model):
+        # more distinct elements than there are is an ill-defined request: "no rows" and an error value are both what the property allows
+        if case.meta.get('error_ok') and impl.startswith('E:'):
+            return True
+        return impl == model
 
     def gen_history(self, rng):
         n = rng.randint(1, 12)
